@@ -90,8 +90,9 @@ fn judge(case: &QCase, obs: &QObs, clo: &Closure) -> Verdict {
         }
         return Verdict::Held { s_checked: true, k_height: None };
     }
-    // not provable: bounded completeness (DFS, one solution wanted)
-    if case.cfg.strat == Strat::Dfs && case.cfg.max_solutions == 1 && !case.cfg.memo {
+    // not provable: bounded completeness (DFS; the statement does not depend on how many solutions
+    // are asked for, so max_solutions > 1 is judged as well)
+    if case.cfg.strat == Strat::Dfs && !case.cfg.memo {
         if clo.undefined_seen {
             return Verdict::SkippedUndefined;
         }
